@@ -76,13 +76,22 @@ func c20Bytes(r *rand.Rand, n int) []byte {
 	return b
 }
 
+// c20Str: mostly lower-case letters; one string in three also carries characters that are special to some
+// layer a renderer may put the value through (printf verbs, JSON and HTML escaping, quoting, multi-byte
+// runes). No line breaks and no leading or trailing blanks: an entry is read line by line.
 func c20Str(r *rand.Rand) string {
 	n := r.IntN(24)
 	b := make([]byte, n)
 	for i := range b {
 		b[i] = byte('a' + r.IntN(26))
 	}
-	return string(b)
+	s := string(b)
+	if r.IntN(3) == 0 {
+		sp := []string{"%", "%s", "%d%%", "100%", "%!v", "\\", "\"", "'", "<b>", "&amp;", "{}", "[x]", "\u00e9", "\u4e2d\u6587", "a b", "x=1", "k:v"}
+		k := r.IntN(len(s) + 1)
+		s = s[:k] + sp[r.IntN(len(sp))] + s[k:]
+	}
+	return s
 }
 
 // c20Value builds a value object for the element and the rendering a reader would expect.
